@@ -306,7 +306,9 @@ def step (s : St) (op : List String) (impl : Option (List String)) : St × Strin
     let sym := isSymmetric n (afun n s.A)
     match impl with
     | none => (s, showBool sym, "-")
+    | some ["hang"] => (s, showBool sym, "FAIL:terminates")
     | some t =>
+      if (t.head?.getD "").startsWith "crash" then (s, showBool sym, "FAIL:no_crash") else
       match splitTok ";" t with
       | [[fl], ds, es, vs] =>
         match flts? ds, flts? es, flts? vs with
@@ -346,7 +348,9 @@ def step (s : St) (op : List String) (impl : Option (List String)) : St × Strin
       let n := s.nr
       match impl with
       | none => (s, "hole", "-")
+      | some ["hang"] => (s, "hole", "FAIL:terminates")
       | some t =>
+        if (t.head?.getD "").startsWith "crash" then (s, "hole", "FAIL:no_crash") else
         match splitTok ";" t with
         | [ds, vs, ws, os] =>
           match flts? ds, flts? vs, flts? ws, flts? os with
